@@ -22,7 +22,8 @@ STATS = {"queries": 0, "unsat": 0, "sat": 0, "unknown": 0, "seconds": 0.0, "max_
 
 
 class Lowering:
-    def __init__(self):
+    def __init__(self, ackermann=True):
+        self.ackermann = ackermann
         self.memo = {}
         self.side = []  # z3 constraints defining auxiliaries
         self.aux = 0
@@ -113,8 +114,9 @@ class Lowering:
             args = [m[a] for a in t.args[1:]]
             r = self._fresh("uf_" + name.replace(",", "_"), t.sort)
             apps = self.uf_apps.setdefault((name, len(args)), [])
-            for oargs, ores in apps:
-                self.side.append(z3.Implies(z3.And([x == y for x, y in zip(args, oargs)]), r == ores))
+            if self.ackermann:
+                for oargs, ores in apps:
+                    self.side.append(z3.Implies(z3.And([x == y for x, y in zip(args, oargs)]), r == ores))
             apps.append((args, r))
             return r
         if op == "idiv":
@@ -166,9 +168,9 @@ def _model_value(v):
     return None
 
 
-def solve(assertions, timeout_s=30.0, want_smt2=False, logic="auto", hard=True):
+def solve(assertions, timeout_s=30.0, want_smt2=False, logic="auto", hard=True, ackermann=True):
     """assertions: iterable of bool Terms (conjunction).  Returns Result."""
-    low = Lowering()
+    low = Lowering(ackermann=ackermann)
     zs = []
     for a in assertions:
         if a is T.TRUE:
@@ -225,6 +227,12 @@ def _check_forked(s, timeout_s):
     pid = os.fork()
     if pid == 0:
         try:
+            try:
+                import ctypes
+
+                ctypes.CDLL("libc.so.6").prctl(1, 9)  # PR_SET_PDEATHSIG, SIGKILL: die with the parent
+            except Exception:
+                pass
             os.close(rfd)
             try:
                 signal.alarm(0)
